@@ -4,6 +4,7 @@ import (
 	"fmt"
 	"reflect"
 	"sync"
+	"time"
 	"unsafe"
 
 	"github.com/welllog/golib/listz"
@@ -140,8 +141,19 @@ func c11ImplM(in, model []int64) []int64 {
 				case op == 0:
 					v, ok := a.l.Pop()
 					results[i] = append(results[i], 2, B(ok), v)
-				case op < 0:
+				case op == -1:
 					results[i] = append(results[i], 3, int64(a.l.Len()))
+				case op == -10:
+					v, ok := a.l.PopWait(-1)
+					results[i] = append(results[i], 2, B(ok), v)
+				case op <= -100: // timed: n further tries after the first (10 ms ticker, virtual clock)
+					n := -op - 100
+					d := time.Duration(0)
+					if n > 0 {
+						d = time.Duration(10*n-5) * time.Millisecond
+					}
+					v, ok := a.l.PopWait(d)
+					results[i] = append(results[i], 2, B(ok), v)
 				default:
 					a.l.Push(op)
 					results[i] = append(results[i], 1)
@@ -265,7 +277,7 @@ func c11Gen(c *Ctx) {
 	type cfg struct{ npre, p0, p1 int64 }
 	var cfgs []cfg
 	for npre := int64(0); npre <= 2; npre++ {
-		for _, p0 := range []int64{0, 71, -1} {
+		for _, p0 := range []int64{0, 71, -1, -101} {
 			for _, p1 := range []int64{0, 72, -1} {
 				cfgs = append(cfgs, cfg{npre, p0, p1})
 			}
@@ -285,14 +297,47 @@ func c11Gen(c *Ctx) {
 		total := 0
 		for j := range progs {
 			for o := 0; o < 1+r.Intn(3); o++ {
-				switch x := r.Intn(10); {
+				switch x := r.Intn(11); {
 				case x < 4:
 					progs[j] = append(progs[j], 0)
 				case x < 5:
 					progs[j] = append(progs[j], -1)
+				case x < 6:
+					progs[j] = append(progs[j], -100-int64(r.Intn(3))) // PopWait(d >= 0): never blocks
 				default:
 					progs[j] = append(progs[j], int64(100*(j+1)+o+1))
 				}
+				total++
+			}
+		}
+		fam := fmt.Sprintf("random-%dthreads", nt)
+		if i%6 == 0 {
+			// blocking PopWait(-1): as many pushes elsewhere as blocking pops, one blocking pop per goroutine
+			fam = "popwait-blocking"
+			for j := range progs {
+				progs[j] = nil
+			}
+			total = 0
+			nb := 1 + r.Intn(nt-1)
+			for j := 0; j < nt; j++ {
+				if j < nb {
+					progs[j] = []int64{-10}
+					total++
+				} else {
+					for o := 0; o < 1+r.Intn(2); o++ {
+						progs[j] = append(progs[j], int64(100*(j+1)+o+1))
+						total++
+					}
+				}
+			}
+			// enough values for every blocking pop
+			have := int(npre)
+			for j := nb; j < nt; j++ {
+				have += len(progs[j])
+			}
+			for have < nb {
+				progs[nt-1] = append(progs[nt-1], int64(100*nt+50+have))
+				have++
 				total++
 			}
 		}
@@ -304,7 +349,7 @@ func c11Gen(c *Ctx) {
 			}
 		}
 		t.C.Count("threads", fmt.Sprint(nt))
-		t.Try(fmt.Sprintf("random-%dthreads", nt), c11Case(npre, progs, s), true)
+		t.Try(fam, c11Case(npre, progs, s), true)
 	})
 }
 
